@@ -8,16 +8,20 @@ ROOT = os.path.dirname(os.path.abspath(__file__))
 PY = "/venv/bin/python"
 out = {}
 names = sorted(os.path.basename(os.path.dirname(p)) for p in glob.glob(os.path.join(ROOT, "seeded", "*", "meta.json")))
-only = sys.argv[1:]
-for name in names:
-    if only and name not in only:
-        continue
+JOBS = 4
+only = [a for a in sys.argv[1:] if not a.startswith("--jobs=")]
+for a in sys.argv[1:]:
+    if a.startswith("--jobs="):
+        JOBS = int(a.split("=")[1])
+
+
+def one(name):
     d = os.path.join(ROOT, "seeded", name)
     meta = json.load(open(os.path.join(d, "meta.json")))
     if meta.get("obsolete_after"):
         out[name] = {"skipped": "obsolete after " + meta["obsolete_after"]}
         print(name, "skipped (obsolete after a later fix)")
-        continue
+        return
     wt = f"/tmp/sr_{name}"
     subprocess.run(["git", "-C", "/repo", "worktree", "remove", "--force", wt], capture_output=True)
     subprocess.run(["git", "-C", "/repo", "worktree", "add", "--detach", wt, "HEAD"], capture_output=True, check=True)
@@ -29,10 +33,10 @@ for name in names:
         if r.returncode != 0:
             out[name] = {"applies": False, "err": r.stderr[-300:]}
             print(name, "PATCH DOES NOT APPLY")
-            continue
+            return
         env = dict(os.environ, QSIM_REPO=wt, OMP_NUM_THREADS="1")
         res = {}
-        budget = ["--budget", "4000"] if name == "C04-w3A" else ["--budget", "8000"] if name == "C04-w8S-mut1" else []
+        budget = []
         pids = [meta["property"]] + [p_ for p_ in (meta.get("caught_by") or []) if p_ != meta["property"]]
         if meta.get("caught_by") and meta["property"] not in meta["caught_by"]:
             pids = list(meta["caught_by"])
@@ -46,5 +50,11 @@ for name in names:
         print(name, {k: v["exit"] for k, v in res.items()}, flush=True)
     finally:
         subprocess.run(["git", "-C", "/repo", "worktree", "remove", "--force", wt], capture_output=True)
+
+
+from concurrent.futures import ThreadPoolExecutor
+with ThreadPoolExecutor(JOBS) as tp:
+    list(tp.map(one, [n for n in names if not only or n in only]))
+out = dict(sorted(out.items()))
 json.dump(out, open(os.path.join(ROOT, "seeded", "REGRESSION.json"), "w"), indent=1)
 print(sum(1 for v in out.values() if v.get("caught")), "of", sum(1 for v in out.values() if not v.get("skipped")), "caught")
